@@ -165,6 +165,9 @@ func c09Check(in c09Input) (key, what string) {
 	} else {
 		prog = c09Programs[in.Prog]
 	}
+	if in.Mode == "goast-package" {
+		return c09PackageMode(prog, in.File == 1)
+	}
 	c := typeCheck(prog)
 	if c.err != nil {
 		return "c09-program", "the generated program does not type-check: " + c.err.Error()
@@ -256,6 +259,88 @@ func c09Check(in c09Input) (key, what string) {
 	return "", ""
 }
 
+// c09PackageMode: the files of a package decorated as ONE node (DecorateNode on *ast.Package, what
+// ParseDir does) with the syntax-only resolver: every identifier must get the path it gets when its
+// file is decorated alone -- each file has its own import table (the same name can stand for
+// different packages in different files), also when a //line directive in one file names another
+func c09PackageMode(prog program, lineDirective bool) (key, what string) {
+	last := prog.Pkgs[len(prog.Pkgs)-1]
+	names := map[string]string{}
+	chk := typeCheck(prog)
+	if chk.err != nil {
+		return "", ""
+	}
+	for p, tp := range chk.pkgs {
+		names[p] = tp.Name()
+	}
+	var srcs []string
+	for _, src := range last.Files {
+		if !strings.Contains(src, "\t. \"") && !strings.Contains(src, "import . ") {
+			srcs = append(srcs, src)
+		}
+	}
+	if len(srcs) < 2 {
+		return "", ""
+	}
+	fname := func(i int) string { return fmt.Sprintf("/pkgdir/f%d.go", i) }
+	if lineDirective {
+		// after the import declaration of the first file: the rest of it claims to be the second file
+		if i := strings.Index(srcs[0], ")\n"); i >= 0 {
+			srcs[0] = srcs[0][:i+2] + "\n//line " + fname(1) + ":100\n" + srcs[0][i+2:]
+		} else {
+			return "", ""
+		}
+	}
+	solo := func(src string) ([]string, error) {
+		fset := token.NewFileSet()
+		af, err := parser.ParseFile(fset, "solo.go", src, parser.ParseComments)
+		if err != nil {
+			return nil, err
+		}
+		dec := decorator.NewDecoratorWithImports(fset, last.Path, goast.WithResolver(simple.New(names)))
+		df, err := dec.DecorateFile(af)
+		if err != nil {
+			return nil, err
+		}
+		return identPaths(df), nil
+	}
+	fset := token.NewFileSet()
+	pkg := &ast.Package{Name: "main", Files: map[string]*ast.File{}}
+	for i, src := range srcs {
+		af, err := parser.ParseFile(fset, fname(i), src, parser.ParseComments)
+		if err != nil {
+			return "", ""
+		}
+		pkg.Files[fname(i)] = af
+	}
+	dec := decorator.NewDecoratorWithImports(fset, last.Path, goast.WithResolver(simple.New(names)))
+	var dn dst.Node
+	var derr error
+	if pm := safely(func() { dn, derr = dec.DecorateNode(pkg) }); pm != "" {
+		return "c09-panic", "decorating the package panicked: " + pm
+	}
+	if derr != nil {
+		return "c09-error", "decorating the package failed: " + derr.Error()
+	}
+	dp := dn.(*dst.Package)
+	for i, src := range srcs {
+		want, err := solo(src)
+		if err != nil {
+			return "", ""
+		}
+		got := identPaths(dp.Files[fname(i)])
+		if strings.Join(got, " ") != strings.Join(want, " ") {
+			for k := range got {
+				if k < len(want) && got[k] != want[k] {
+					return "c09-package-mode", fmt.Sprintf("file %d of the package: identifier %s when the package is decorated as a whole, %s when the file is decorated alone", i, got[k], want[k])
+				}
+			}
+			return "c09-package-mode", fmt.Sprintf("file %d: %d identifiers in package mode, %d alone", i, len(got), len(want))
+		}
+	}
+	return "", ""
+}
+
 func fileHasDotImport(f *ast.File) bool {
 	for _, is := range f.Imports {
 		if is.Name != nil && is.Name.Name == "." {
@@ -307,6 +392,19 @@ func c09Prop(c *Ctx) {
 				if key, what := c09Check(in); key != "" {
 					c.Res.fail(key, what, in)
 				}
+			}
+		}
+	}
+	// the files of generated packages decorated as one node; with and without a //line directive that names a sibling
+	for gi := 0; gi < c.N(16); gi++ {
+		g := genProgram(c.Rng)
+		for _, ld := range []bool{false, true} {
+			pp := g.Prog
+			in := c09Input{Program: &pp, Mode: "goast-package", File: map[bool]int{false: 0, true: 1}[ld]}
+			c.Res.Evaluations++
+			c.Res.hist("c09", fmt.Sprintf("goast-package line-directive=%v", ld))
+			if key, what := c09Check(in); key != "" {
+				c.Res.fail(key, what, in)
 			}
 		}
 	}
